@@ -80,7 +80,7 @@ Inductive c19_case :=
 
 Definition hmin2 (h1 h2 : Q) : Q := 1 / (h1 * h2).
 
-Definition check_C19 (c : c19_case) : bool :=
+Definition check_C19_core (c : c19_case) : bool :=
   match c with
   | CTcdCont sh h1 h2 per1 per2 c4 o valid obs =>
       let fsh := sh ++ [3%nat] in
@@ -145,3 +145,79 @@ Definition check_C19 (c : c19_case) : bool :=
                         (qc (nth 0 p 0)) (qc (nth 1 p 0)) (qc (nth 2 p 0)))
                     (qcl ob)) pts obs
   end.
+
+(* --- completeness of the recorded tables: a table stands for a library function only at the keys it
+   lists (lookup of an absent key would read 0), so a case is accepted only if every key that the model
+   evaluation of that case looks up is present.  The key lists below follow the model's own enumeration
+   (Tools.tcd_bl / angle_arr / N_sum); C19_sound.v proves that the model values depend on the tabled
+   function through these keys only. --- *)
+Fixpoint has1 (t : list (Q * Q)) (a : Qc) : bool :=
+  match t with
+  | [] => false
+  | (k, v) :: t' => Qeq_bool k (this a) || has1 t' a
+  end.
+Fixpoint has4 (t : list q4) (a b c d : Qc) : bool :=
+  match t with
+  | [] => false
+  | (ka, kb, kc, kd, v) :: t' =>
+      (Qeq_bool ka (this a) && Qeq_bool kb (this b) && Qeq_bool kc (this c) && Qeq_bool kd (this d))
+      || has4 t' a b c d
+  end.
+
+Definition k4 : Type := (Qc * Qc * Qc * Qc)%type.
+Definition k3 : Type := (Qc * Qc * Qc)%type.
+Definition has4k (t : list q4) (k : k4) : bool := match k with (a, b, c, d) => has4 t a b c d end.
+Definition has3k (t : list q3v) (k : k3) : bool := match k with (a, b, c) => has3 t a b c end.
+
+(* Berg-Luescher: one key per triangle whose two neighbours exist and are valid (as Tools.tri) *)
+Definition tri_keys (v0 : vec QcOps) (a b : option (vec QcOps)) : list k4 :=
+  match a, b with
+  | Some x, Some y => [(dot3 QcOps v0 x, dot3 QcOps x y, dot3 QcOps y v0, triple3 QcOps v0 x y)]
+  | _, _ => []
+  end.
+Definition bl_keys (sh : list nat) (o : idx -> Qc) (valid : idx -> bool) (ij : idx) : list k4 :=
+  let i := nth 0 ij 0%nat in let j := nth 1 ij 0%nat in
+  let n0 := nth 0 sh 0%nat in let n1 := nth 1 sh 0%nat in
+  if valid [i; j] then
+    let v0 := vec_at QcOps o [i; j] in
+    let v1 := nbr QcOps o valid (i + 1 <? n0)%nat [(i + 1)%nat; j] in
+    let v2 := nbr QcOps o valid (j + 1 <? n1)%nat [i; (j + 1)%nat] in
+    let v3 := nbr QcOps o valid (1 <=? i)%nat [(i - 1)%nat; j] in
+    let v4 := nbr QcOps o valid (1 <=? j)%nat [i; (j - 1)%nat] in
+    tri_keys v0 v1 v2 ++ tri_keys v0 v2 v3 ++ tri_keys v0 v3 v4 ++ tri_keys v0 v4 v1
+  else [].
+
+(* angles: the clipped dot product of a cell with its next neighbour *)
+Definition angle_key (ax : nat) (o : idx -> Qc) (i : idx) : Qc :=
+  qc_clip (dot3 QcOps (vec_at QcOps o i) (vec_at QcOps o (set_nth ax (nth ax i 0%nat + 1)%nat i))).
+
+(* demag: the 64 shifted points of Tools.N_sum, for the three f- and the three g-components of N6 *)
+Definition N_keys (x y z dx dy dz : Qc) : list k3 :=
+  map (fun i => (@fadd QcOps x (@fmul QcOps (@fsub QcOps (bitK QcOps i 0) (bitK QcOps i 3)) dx),
+                 @fadd QcOps y (@fmul QcOps (@fsub QcOps (bitK QcOps i 1) (bitK QcOps i 4)) dy),
+                 @fadd QcOps z (@fmul QcOps (@fsub QcOps (bitK QcOps i 2) (bitK QcOps i 5)) dz)))
+      bits6.
+Definition demag_fkeys (dx dy dz x y z : Qc) : list k3 :=
+  N_keys x y z dx dy dz ++ N_keys y z x dy dz dx ++ N_keys z x y dz dx dy.
+Definition demag_gkeys (dx dy dz x y z : Qc) : list k3 :=
+  N_keys x y z dx dy dz ++ N_keys x z y dx dz dy ++ N_keys y z x dy dz dx.
+
+Definition tables_complete (c : c19_case) : bool :=
+  match c with
+  | CTcdBL sh h1 h2 o valid table obs =>
+      let oa := of_list (f0 QcOps) (sh ++ [3%nat]) (qcl o) in
+      let va := of_list true sh valid in
+      forallb (fun ij => forallb (has4k table) (bl_keys sh oa va ij)) (indices sh)
+  | CAngle sh ax deg deg_factor o acos_table obs_shape obs =>
+      let oa := of_list (f0 QcOps) (sh ++ [3%nat]) (qcl o) in
+      forallb (fun i => has1 acos_table (angle_key ax oa i)) (indices (angle_shape sh ax))
+  | CDemagN pi4 cell_ pts ftab gtab obs =>
+      let dx := qc (nth 0 cell_ 0) in let dy := qc (nth 1 cell_ 0) in let dz := qc (nth 2 cell_ 0) in
+      forallb (fun p =>
+                 let x := qc (nth 0 p 0) in let y := qc (nth 1 p 0) in let z := qc (nth 2 p 0) in
+                 forallb (has3k ftab) (demag_fkeys dx dy dz x y z) &&
+                 forallb (has3k gtab) (demag_gkeys dx dy dz x y z)) pts
+  | _ => true
+  end.
+
+Definition check_C19 (c : c19_case) : bool := tables_complete c && check_C19_core c.
